@@ -40,6 +40,8 @@ pub fn games() -> Vec<(String, Tree)> {
     // no decision at all (games 13 and 14): only chance, forced moves and terminals
     v.push(("nodecision".to_string(), Tree::C { ci: "c".into(), kids: vec![tree::CKid { w: Num::I(1), t: t(1) }, tree::CKid { w: Num::I(3), t: t(-2) }] }));
     v.push(("forced".to_string(), node(1, "only1", vec![("go", node(2, "only2", vec![("go", t(3))]))])));
+    // game 15: one opponent infoset shared by all tasks of a pass (lock contention)
+    v.push(("contended8".to_string(), zoo::contended(8)));
     v
 }
 
